@@ -36,6 +36,9 @@ UNITS = {
 
 CRC_KANI = ['crc_byte_step_is_bitwise', 'masked_spec', 'table16_row0', 'table_xor_linear', 'table16_succ_00', 'table16_succ_01', 'table16_succ_02', 'table16_succ_03', 'table16_succ_04', 'table16_succ_05', 'table16_succ_06', 'table16_succ_07', 'table16_succ_08', 'table16_succ_09', 'table16_succ_10', 'table16_succ_11', 'table16_succ_12', 'table16_succ_13', 'table16_succ_14']
 
+# the node format's bit-level functions, second back end (kani/k_bits.rs): every property that owns the encoders / decoders runs them
+BITS_KANI = ['bits_pack_sizes', 'bits_state_any', 'bits_state_any_sizes', 'bits_state_one', 'bits_state_new', 'bits_pack_size', 'bits_output']
+
 PROPS = {
     'C15': {
         'units': ['builder', 'registry', 'encode', 'bytesio', 'cw'],
@@ -59,7 +62,7 @@ PROPS = {
     },
     'C01': {
         'units': ['builder', 'encode', 'layout', 'decode', 'registry', 'bytesio', 'cw', 'stream', 'open', 'compose'],
-        'kani': ['read_le','unpack_le','to_le_bytes_spec','pack_roundtrip','common_tables','find_input_scan','seek_position'],
+        'kani': ['read_le','unpack_le','to_le_bytes_spec','pack_roundtrip','common_tables','find_input_scan','seek_position'] + BITS_KANI,
         'own': {'stream': r'StreamWithState::(new|seek_min|next_with)|Stream::|impl&%\\d+::(next|into_stream)|Output::',
                 'open': r'Fst::(new|len|is_empty|as_ref)|FstRef::(len|is_empty)|Map::|Set::', 'cw': r'.',
                 # of the cache, the round trip needs soundness (a hit returns the address recorded for that very node): entry / clone_from /
@@ -85,7 +88,7 @@ PROPS = {
     'C09': {
         'units': ['encode', 'layout', 'decode', 'builder', 'bytesio', 'cw', 'crc'],
         # the footer's checksum is part of the format: the masked CRC-32C (a mask or table changed on the writing and the verifying side alike still round-trips)
-        'kani': ['read_le','unpack_le','to_le_bytes_spec','pack_roundtrip','common_tables','common_tables_pinned'] + CRC_KANI,
+        'kani': ['read_le','unpack_le','to_le_bytes_spec','pack_roundtrip','common_tables','common_tables_pinned'] + CRC_KANI + BITS_KANI,
         'own': {'builder': r'Builder::(compile|compile_from|new_type|new|into_inner|insert_output)$'},
         'level_text': 'Proof: encoder and decoder are verified against one forward-layout specification written from the format description '
                       '(header 3 + type; the three node forms; state byte; sizes nibbles; reverse transition order; index iff more than 32 '
@@ -99,7 +102,7 @@ PROPS = {
     },
     'C02': {
         'units': ['reader', 'decode', 'builder', 'encode', 'bytesio', 'cw', 'layout', 'compose'],
-        'kani': ['read_le','unpack_le','common_tables','find_input_scan'],
+        'kani': ['read_le','unpack_le','common_tables','find_input_scan'] + BITS_KANI,
         'level_text': 'Proof: FstRef::get / contains_key (real bodies) and the Fst / Map / Set wrappers are verified to return exactly '
                       'lookup(root, key) over the decoded graph for every probe of every length (absent keys, prefixes, extensions, '
                       'divergence at any byte, the empty key are instances). The decoder - State::new, Node::new, all accessors of the three '
@@ -272,7 +275,7 @@ PROPS = {
     'C10': {
         'units': ['open', 'decode', 'crc'],
         # a version-3 file of an earlier build verifies only if the checksum function is still the format's
-        'kani': ['read_le','unpack_le','common_tables','find_input_scan','common_tables_pinned'] + CRC_KANI,
+        'kani': ['read_le','unpack_le','common_tables','find_input_scan','common_tables_pinned'] + CRC_KANI + BITS_KANI,
         'own': {'open': r'Fst::(new|verify|as_ref|map_data|into_inner|as_inner)|u64_to_usize|From|::from$|map_data'},  # decode: every obligation (the decoder is version-parametric)
         'level_text': 'Proof: Fst::new is verified generically over D: AsRef<[u8]> against per-version footer offsets written from '
                       'the format description: versions 1-3 with at least 32/36 bytes open with the footer fields at the '
